@@ -150,6 +150,11 @@ func init() {
 			if op.M == 3 {
 				sender = w.Gateway.Eth // never a listed owner
 			}
+			if op.M == 4 && method == "updateAVS" {
+				// a non-owner naming itself as the new owner
+				sender = w.Gateway.Eth
+				owners = []string{w.Gateway.Addr.String()}
+			}
 			data, err := ABI("avs").Pack(method, sender, name, uint64(1), t.Eth, w.User(op.A+1).Eth, w.User(op.A+2).Eth,
 				owners, assets, unb, minSelf, avsEpochChoice(w.Cfg, op.D), []uint64{1, 1, 5, 5})
 			if err != nil {
